@@ -24,13 +24,34 @@ ASSUMPTIONS = {
 
 _IT = ["A-ENC", "A-SMT", "A-STD", "A-LCG", "A-ASYNC"]
 
+_ALG = ["A-ALG", "A-STREAMLAWS", "A-READER", "A-TREE", "A-JSON"]
+_TB_IT = ["pyvc encoder (A-ENC, audited)", "z3 / cvc5 (A-SMT)", "stdlib specs (A-STD)",
+          "sequence/stream algebra laws (A-ALG, A-STREAMLAWS: list theory + reading of proved generator contracts)",
+          "reader / pydantic / tf.data library behaviour (A-READER, A-PYD, A-TF; audited, bounded)",
+          "native reader (A-RUST; audited, bounded)", "thread composition lemma (A-LEMMA-CONC, not machine-checked)"]
+
 PLAN = {
-    "C02": dict(level="proof", assumptions=_IT + ["A-RUST", "A-TF", "A-LEMMA-CONC"],
-        explanation="exactly-once as inductive invariants over the real generator bodies (multisets / position tokens)",
-        trusted_base=["pyvc encoder (audited)", "z3/cvc5", "stdlib specs A-STD", "native reader A-RUST (audited)", "tf.data A-TF"]),
-    "C14": dict(level="proof", assumptions=_IT,
-        explanation="at-yield read-ahead bounds asserted at every yield of every stage, independent of stream length (sources may be infinite)",
-        trusted_base=["pyvc encoder (audited)", "z3/cvc5", "stdlib specs A-STD"]),
+    "C02": dict(level="proof", assumptions=_IT + _ALG + ["A-RUST", "A-TF", "A-LEMMA-CONC", "A-PYD"],
+        explanation="exactly-once: inductive invariants over the real generator bodies (multisets / position tokens) for shuffle_buffer, round_robin and the lazy pool consumer; the shard-list tree walk and every iteration interface are proved equal (as multisets) to the canonical stream of the selected shards in a sequence/stream algebra; process_record applied once per example in process_and_list",
+        trusted_base=_TB_IT),
+    "C03": dict(level="proof", assumptions=_IT + _ALG + ["A-RUST", "A-TF", "A-PYD"],
+        explanation="unshuffled iteration: every interface is proved EQUAL (as a sequence) to the canonical stream = depth-first walk of the shard-list tree, shards in list order; the contract depends only on arguments and disk (determinism); batch loop invariant covers every file_parallelism",
+        trusted_base=_TB_IT),
+    "C07": dict(level="other", assumptions=_IT + _ALG + ["A-RUST", "A-TF", "A-LEMMA-CONC"],
+        explanation="proof part: exceptional postconditions: a failing source / mapped function propagates through every generator under contract (no handler other than StopIteration), the lazy-pool worker forwards a failure as its terminal item on every exit path, the consumer re-raises it, a missing or unparsable shard list raises; FAILS propagates through the stream algebra of every interface. Not proved: bounded time under real threads (A-LEMMA-CONC), library decoders actually rejecting damaged files (audited: bounded damage matrix), native reader (known finding F6)",
+        trusted_base=_TB_IT),
+    "C12": dict(level="proof", assumptions=_IT + _ALG + ["A-TF", "A-PYD"],
+        explanation="shard_paths_dataset is proved against a declarative selection (filter, first k, at most n per metadata value, order kept; empty selection raises) with loop invariants for the limit loop; every interface is proved to hand its own selection options unchanged to that selection (stream equalities / call-site obligations), so all interfaces select identically",
+        trusted_base=_TB_IT),
+    "C13": dict(level="other", assumptions=_IT + ["A-LEMMA-CONC"],
+        explanation="per-thread, schedule-independent contracts proved on the real code: consumer (prefill 2T+2, one put per result, one yield per result, T sentinels counted, idle state restored on every exit incl. failure), worker (exactly one terminal item on every exit path, failure forwarded), reset. The quantifier over interleavings is NOT decided by this technique (composition argument A-LEMMA-CONC is written, not machine-checked); bounded stress runs with real threads as stand-in",
+        trusted_base=_TB_IT),
+    "C14": dict(level="proof", assumptions=_IT + _ALG,
+        explanation="at-yield read-ahead bounds asserted at every yield of every stage (shuffle buffer <= b+1, round robin <= b open inner iterators, lazy pool <= 2T+3 in flight, unshuffled concurrent <= file_parallelism paths), with sources that may be infinite, so no bound mentions the stream length",
+        trusted_base=_TB_IT),
+    "C19": dict(level="proof", assumptions=_IT + _ALG + ["A-RUST", "A-TF"],
+        explanation="with repeat the normal exit of every interface is proved unreachable (the generator diverges yielding a stream proved not finite); unshuffled the yielded stream is proved equal to the canonical stream over the cycled path list (cycle applied before any shuffle); RustGenerator: every epoch is a complete pass with a fresh native iterator (loop invariant ALLEPOCHS)",
+        trusted_base=_TB_IT),
 }
 
 NOT_APPLICABLE = {
